@@ -1322,6 +1322,9 @@ def _inline(fn, module_tree, cls, depth=0, budget=None, only=None):
                                     n.id = pre + n.id
                             new.append(s3)
                         rv = _subst(hb[-1].value, m)
+                        for n in ast.walk(rv):       # binding occurrences inside the returned expression (comprehension variables, walrus targets)
+                            if isinstance(n, ast.Name) and isinstance(n.ctx, ast.Store) and n.id in (locs | rebound):
+                                n.id = pre + n.id
                         if st.value is call:
                             st.value = rv
                         else:
